@@ -1,0 +1,7 @@
+//go:build !verif
+
+// SPDX-License-Identifier: Apache-2.0
+
+package proxy
+
+func verifDequeued(string) {}
